@@ -207,6 +207,12 @@ def judge(rec, text, origin, sel=None):
             name = "ValueError" if isinstance(e, ValueError) else type(e).__name__
             rec.cls(f"error:{name}")
             rec.cls("rejected_with_a_documented_error")
+            if len(text) % 4 == 2 and origin != "retry":
+                # the application tries the same file again (a retry, a second worker, the next scan of the folder): arbitrary text is
+                # refused with a documented error the second time as well - a refusal leaves nothing behind that lets the retry through
+                # to an internal failure
+                rec.cls("rejected_text_tried_again")
+                judge(rec, text, "retry", sel)
         else:
             import traceback
 
